@@ -6,6 +6,9 @@ in the domain of C01 *by construction*; xref discards the residue and the discar
 the evidence.  Draws are ordered so that smaller is simpler (counts as randint(0, n), optional features
 taken when random() >= p, the plainest alternative first), which is what lets Hypothesis shrink.
 """
+import itertools
+import re
+from . import xlang
 from .xlang import wrap32
 
 BOUNDARY = [0, 1, 2, 3, 7, 15, 16, 17, 255, 256, 65535, 65536, 65537, 2147483647,
@@ -236,7 +239,11 @@ class Gen:
                     s = 0
                 else:
                     self.used_out_files.add(f)
-        return self.literal(s) if 0 <= s < 256 else lit(s)
+        e = self.literal(s) if 0 <= s < 256 else lit(s)
+        if getattr(self, 'idf', False) and self.chance(0.35):
+            self.idf_used = True
+            return ('call', 'idf', [e])
+        return e
 
     def index(self, env, a, d, mode):
         """A subscript in range by construction."""
@@ -524,6 +531,8 @@ class Gen:
         self.pool = [r.randint(-50, 50) for _ in range(3)]
         self.used_in_files = set()
         self.used_out_files = set()
+        self.idf = self.chance(0.3)      # stream numbers may be passed through an identity function (a call inside a system call's actuals)
+        self.idf_used = False
         gl = []
         taken = set()
         # system-call names
@@ -585,6 +594,10 @@ class Gen:
         main = self.gen_main(plist)
         if self.strprobe:
             plist.append(self.strw_template())
+        if self.idf_used:
+            idf = Proc('func', 'idf', [('val', 'v')])
+            idf.body = ('ret', ('var', 'v'))
+            plist.append(idf)
         procs = [p.to_ast() for p in plist]
         r.shuffle(procs)
         procs.insert(r.randint(0, len(procs)), main.to_ast())
@@ -812,7 +825,40 @@ class Gen:
         return p
 
 
+_TOKEN = re.compile(r'("(?:\\.|[^"\\])*")|(\'(?:\\.|[^\'\\])\')|#[0-9A-Za-z]*|[0-9]+|([A-Za-z][A-Za-z0-9_]*)')
+_PPOOL = ['q' + ''.join('_' + x for x in c) for n in range(3) for c in itertools.product('rstu', repeat=n)]
+_VPOOL = ['_'.join(c) for n in range(1, 4) for c in itertools.product('rstu', repeat=n)]
+
+
+def confuse_names(P, r):
+    """Rename every identifier into a family in which one name is a prefix of another up to an underscore (procedures q, q_r, q_r_s,
+    ...; variables r, r_s, s, ...), so that scope-qualified names such as q_r + s and q + r_s coincide textually.  The renaming is
+    done on the printed program and parsed back, which keeps it consistent across scopes (same old name -> same new name)."""
+    pp, vp = list(_PPOOL), list(_VPOOL)
+    r.shuffle(pp)
+    r.shuffle(vp)
+    mapping = {}
+    try:
+        for p in P['procs']:
+            if p['name'] != 'main':
+                mapping[p['name']] = pp.pop()
+
+        def sub(m):
+            w = m.group(3)
+            if w is None or w == 'main' or w in xlang.KEYWORDS:
+                return m.group(0)
+            if w not in mapping:
+                mapping[w] = vp.pop()
+            return mapping[w]
+        text = _TOKEN.sub(sub, xlang.p_prog(P))
+    except IndexError:
+        return P
+    return xlang.resolve_syscall_names(xlang.parse(text))
+
+
 def gen_program(r, tier='quick', mode='normal'):
     g = Gen(r, Cfg(tier, mode))
     P, inp, files = g.program()
+    if mode == 'normal' and r.random() < 0.08:
+        P = confuse_names(P, r)
     return P, inp, files
